@@ -15,7 +15,9 @@ func c29(r *core.Run) {
 	r.Explanation = "Decided clauses: (R1) in runtime.importValidatedArguments the store of an imported argument into the result slice executes only under all of: DecodeArgument error nil, no panic from ImportValue (UserPanicToError result nil), " +
 		"ImportValue error nil, IsImportable true, IsSubTypeOfSemaType(argType, parameterType) true, ConformsToStaticType true — each as a controlling branch condition; a parameter-count mismatch returns before the loop; " +
 		"(R2) DecodeArgument/ImportValue are called only from the reviewed functions; (R3) ConformsToStaticType of arrays, dictionaries (keys and values), composites and optionals recurses into their children (pinned number of recursive call sites); " +
-		"(R4) no error of the static-to-sema type conversion and value import functions is dropped or overwritten before being tested."
+		"(R4) no error of the static-to-sema type conversion and value import functions is dropped or overwritten before being tested; " +
+		"(R5) every insertion into the export's seenReferences set is undone by a deferred delete of the same key (cycle guard, not a visited-set: a reference occurring twice must export twice); " +
+		"(R6) every branch condition and module callee of the import functions of runtime/convertValues.go recorded from the reviewed tree is still present (helper-aware decision census)."
 	r.NotDecided = "that the subtype and conformance predicates themselves are right; export round-trip."
 	w := r.W
 	fn := mustFn(r, "R1.guards", "runtime", "", "importValidatedArguments")
@@ -201,6 +203,76 @@ func c29(r *core.Run) {
 		}
 	}
 	r.Floor("R4.errflow", 20)
+	c29CycleGuard(r)
+	c29ImportDecisions(r)
+}
+
+// c29CycleGuard: R5 — the export of references marks a reference in the seenReferences set only while it is being
+// exported (a cycle guard): every insertion into a map of that type must be paired with a deferred delete of the same
+// key in the same function. Without the delete the set becomes a visited-set, and the second, non-cyclic occurrence of
+// the same reference in a result exports as nil — a value that does not round-trip.
+func c29CycleGuard(r *core.Run) {
+	w := r.W
+	rule := "R5.cycleguard"
+	n := 0
+	for _, fn := range w.SrcFuncsIn("runtime") {
+		if fn.Parent() != nil {
+			continue
+		}
+		for _, g := range core.WithAnon(fn) {
+			core.Instrs(g, false, func(in ssa.Instruction) {
+				mu, ok := in.(*ssa.MapUpdate)
+				if !ok {
+					return
+				}
+				nt, ok := mu.Map.Type().(*types.Named)
+				if !ok || nt.Obj().Name() != "seenReferences" {
+					return
+				}
+				n++
+				paired := false
+				core.Instrs(g, false, func(in2 ssa.Instruction) {
+					d, ok := in2.(*ssa.Defer)
+					if !ok {
+						return
+					}
+					b, ok := d.Call.Value.(*ssa.Builtin)
+					if !ok || b.Name() != "delete" || len(d.Call.Args) != 2 {
+						return
+					}
+					if core.OriginLeaves(d.Call.Args[0]) == core.OriginLeaves(mu.Map) && core.OriginLeaves(d.Call.Args[1]) == core.OriginLeaves(mu.Key) &&
+						d.Block().Dominates(mu.Block()) {
+						paired = true
+					}
+				})
+				r.Check(paired, rule, core.SSAKey(fn)+": seenReferences["+core.OriginLeaves(mu.Key)+"]", mu.Pos(), "insertion is undone by a deferred delete of the same key",
+					"a reference is recorded in seenReferences without a deferred delete: its second, non-cyclic occurrence in a result exports as nil, which does not round-trip")
+			})
+		}
+	}
+	r.Check(n >= 2, rule, "runtime: seenReferences insertions", 0, "both reference kinds found", "the cycle-guard insertions of the reference export were not found")
+	r.Floor(rule, 3)
+}
+
+// c29ImportDecisions: R6 — the decisions of the argument importer (which decoded values it rejects): every branch
+// condition and module callee of the import functions of runtime/convertValues.go recorded from the reviewed tree must
+// still be present (helper-aware, see c38Collect). A removed or replaced test (e.g. "key type is a subtype of
+// HashableStruct" replaced by a weaker one) lets a non-importable value through, or turns a user error into a crash.
+func c29ImportDecisions(r *core.Run) {
+	w := r.W
+	var fns []*ssa.Function
+	for _, fn := range w.SrcFuncsIn("runtime") {
+		if fn.Parent() != nil || w.File(fn.Pos()) != "runtime/convertValues.go" || !strings.HasPrefix(strings.ToLower(fn.Name()), "import") {
+			continue
+		}
+		fns = append(fns, fn)
+	}
+	if imp := w.Fn("runtime", "", "importValidatedArguments"); imp != nil {
+		fns = append(fns, imp)
+	}
+	decisionCensus(r, "R6.decisions", "c29_import_decisions", fns,
+		"the importer no longer makes a decision / consults a helper it did on the reviewed tree")
+	r.Floor("R6.decisions", 8)
 }
 
 func isNilC(v ssa.Value) bool {
